@@ -615,6 +615,20 @@ func (g *c03Gen) item(d int, opaque bool) *gt {
 	case k < 22:
 		return refCall1(g.seq(d-1, true)) // call/1 with a cut inside: local by definition
 	case k < 34:
+		if g.r.Intn(3) == 0 {
+			// the goal FAILS AFTER its cut has run: the cut is local to \+, which therefore succeeds
+			last := gAtom("fail")
+			switch g.r.Intn(3) {
+			case 0:
+				last = gApp("==", g.xy(), gInt(3))
+			case 1:
+				last = g.simple()
+			}
+			if g.r.Intn(2) == 0 {
+				return gApp("\\+", gConj(gAtom("!"), last))
+			}
+			return gApp("\\+", gConj(g.simple(), gAtom("!"), last))
+		}
 		return gApp("\\+", g.seq(d-1, g.r.Intn(3) == 0))
 	case k < 46:
 		return gApp("once", g.seq(d-1, g.r.Intn(3) == 0))
